@@ -1,6 +1,7 @@
 package main
 
 import (
+	"bytes"
 	"encoding/binary"
 	"fmt"
 	"strings"
@@ -60,10 +61,38 @@ func c15One(caseToks []string) string {
 			return "err"
 		}
 		rec = set.GetRecords()[0]
-		fmt.Fprintf(&sb, "len=%d ", rec.GetRecordLength())
+		recLen := rec.GetRecordLength()
+		fmt.Fprintf(&sb, "len=%d ", recLen)
 		before := errCount.Load()
 		buf = rec.GetBuffer()
-		fmt.Fprintf(&sb, "buf=ok %s errs=%d ", ShowBytes(buf), errCount.Load()-before)
+		errs := errCount.Load() - before
+		// the same element through the other public builder (AddRecordV2 ->
+		// NewDataRecordFromElements): length accounting and encoding must not depend on the path
+		v2 := func() (v string) {
+			defer func() {
+				if r := recover(); r != nil {
+					v = "!v2=panic"
+				}
+			}()
+			elem2, _ := MkElem(ie, rest)
+			set2 := entities.NewSet(false)
+			set2.PrepareSet(entities.Data, 256)
+			if err := set2.AddRecordV2([]entities.InfoElementWithValue{elem2}, 256); err != nil {
+				return "!v2=err"
+			}
+			rec2 := set2.GetRecords()[0]
+			if rec2.GetRecordLength() != recLen {
+				return fmt.Sprintf("!v2=%d", rec2.GetRecordLength())
+			}
+			if set2.GetSetLength() != set.GetSetLength() {
+				return fmt.Sprintf("!v2set=%d", set2.GetSetLength())
+			}
+			if !bytes.Equal(buf, rec2.GetBuffer()) {
+				return "!v2=other-bytes"
+			}
+			return ""
+		}()
+		fmt.Fprintf(&sb, "buf=ok %s errs=%d%s ", ShowBytes(buf), errs, v2)
 		return "ok"
 	}()
 	if stage != "ok" {
